@@ -1,4 +1,5 @@
 import SafeNet.Proofs.Distance
+import SafeNet.Props.C08
 /-!
 # C11 — all distance computations agree with the XOR metric over hashed addresses
 
@@ -217,6 +218,22 @@ theorem sha_dist_form_independent (a b : Addr) :
     convert (distSha (fromRecordKey (toRecordKey a)) b) = convert (distSha a b) := by
   unfold distSha; rw [(dist_form_independent _ a b).1]
 
+/-! ## The replication fetcher's closeness decision (which queued records are fetched first) -/
+
+/-- `ReplicationFetcher::next_keys_to_fetch` is a closeness decision too: for every distance function (in
+particular the XOR metric above), a batch the model accepts as the implementation's choice is in ascending distance,
+and a queued record that is left behind although its version is not in flight is at least as far as every record of
+the batch (C08's `closest_first`, proved over the fetcher model regenerated from the source; the tie to the code is
+the fetcher correspondence run, which this check runs as well). -/
+theorem fetch_order_is_by_distance (dist : Nat → Nat) (s : SafeNet.Fetcher.State) (choice : List SafeNet.Fetcher.Entry)
+    (hok : (SafeNet.Fetcher.nextKeys dist s choice).2.illegal = false) :
+    (SafeNet.Fetcher.nextKeys dist s choice).2.ret.Pairwise (fun a b => dist a.key ≤ dist b.key) ∧
+    ∀ e ∈ (SafeNet.Fetcher.nextKeys dist s choice).1.tbf,
+      SafeNet.Fetcher.hasKT (SafeNet.Fetcher.nextKeys dist s choice).1.ogf e.key e.ty = false →
+      ∀ r ∈ (SafeNet.Fetcher.nextKeys dist s choice).2.ret, dist r.key ≤ dist e.key := by
+  obtain ⟨h1, h2⟩ := SafeNet.Props.C08.closest_first dist s choice hok
+  exact ⟨h1, fun e he hk => (h2 e he hk).2⟩
+
 example : convert 0 = 0 := convert_is_identity 0 (by decide)
 example : convert (2 ^ 256 - 1) = 2 ^ 256 - 1 := convert_is_identity _ (by decide)
 example : sortPeersByKey [(1, 9), (2, 3), (3, 7), (4, 1), (5, 5)] 2 ≠ none := by
@@ -237,6 +254,7 @@ end SafeNet.Props.C11
 #print axioms SafeNet.Props.C11.sha_dist_symm
 #print axioms SafeNet.Props.C11.sha_dist_zero_iff
 #print axioms SafeNet.Props.C11.sha_dist_form_independent
+#print axioms SafeNet.Props.C11.fetch_order_is_by_distance
 #print axioms SafeNet.Props.C11.sort_sorted
 #print axioms SafeNet.Props.C11.sort_perm
 #print axioms SafeNet.Props.C11.sort_err_iff_few
